@@ -79,16 +79,48 @@ theorem leaves2_eq_sequential_float (s : Steps2D Float) (t : SplitTree) (h : t.V
 /-! ## T3 — positions and lengths -/
 
 /-- `len_fresh`: a fresh `Iterator1D` reports its point count (what rayon's `enumerate`/`collect`
-rely on); `len_after_partial`: after consuming an item it still reports the *total* (true of the
-code — `len()` is `steps.len()` — and irrelevant to rayon, which asks fresh producers only). -/
+rely on). -/
 theorem len_fresh1 {α : Type} [Add α] [Sub α] [Mul α] [Div α] [NatCast α] (s : Steps α) :
     s.iter.len = s.collect.length := by
   simp [Steps.iter, Iter1.len, Steps.collect]
 
-theorem len_after_partial1 {α : Type} [Add α] [Sub α] [Mul α] [Div α] [NatCast α] (s : Steps α)
-    (h : 0 < s.n) : (s.iter.next).2.len = s.n ∧ (s.iter.next).2.index = 1 := by
-  have : ¬ (0 ≥ s.n) := by omega
-  simp [Steps.iter, Iter1.next, Iter1.len, this]
+/-- Exact-size contract after partial consumption (what `enumerate().rev()` / `zip(..).rev()` rely on;
+true of the code since the `fix:` commit 3d5ac37, D20): every successful pull from either end
+lowers the reported length by exactly one, an unsuccessful one leaves state and length unchanged,
+and an exhausted iterator reports 0. -/
+theorem len_after_partial1 {α : Type} [Add α] [Sub α] [Mul α] [Div α] [NatCast α] (it : Iter1 α)
+    (h : it.index ≤ it.indexBack) :
+    ((it.next).1.isSome → (it.next).2.len + 1 = it.len) ∧
+    ((it.nextBack).1.isSome → (it.nextBack).2.len + 1 = it.len) ∧
+    ((it.next).1 = none → (it.next).2 = it ∧ it.len = 0) ∧
+    ((it.nextBack).1 = none → (it.nextBack).2 = it ∧ it.len = 0) ∧
+    (it.next).2.index ≤ (it.next).2.indexBack ∧ (it.nextBack).2.index ≤ (it.nextBack).2.indexBack := by
+  by_cases hlt : it.index < it.indexBack
+  · have h1 : ¬ (it.index ≥ it.indexBack) := by omega
+    have h2 : ¬ (it.indexBack ≤ it.index) := by omega
+    simp only [Iter1.next, Iter1.nextBack, Iter1.len, h1, if_false]
+    refine ⟨?_, ?_, ?_, ?_, ?_, ?_⟩ <;> first | omega | simp
+  · have h1 : it.index ≥ it.indexBack := by omega
+    have h2 : it.indexBack ≤ it.index := by omega
+    simp only [Iter1.next, Iter1.nextBack, Iter1.len, h1, if_true]
+    refine ⟨?_, ?_, ?_, ?_, ?_, ?_⟩ <;> first | omega | (simp; omega) | simp
+
+/-- the same contract for `Iterator2D` -/
+theorem len_after_partial2 {α : Type} [Add α] [Sub α] [Mul α] [Div α] [NatCast α] [OfScientific α]
+    (it : Iter2 α) (h : it.index ≤ it.indexBack) :
+    ((it.next).1.isSome → (it.next).2.len + 1 = it.len) ∧
+    ((it.nextBack).1.isSome → (it.nextBack).2.len + 1 = it.len) ∧
+    ((it.next).1 = none → (it.next).2 = it ∧ it.len = 0) ∧
+    ((it.nextBack).1 = none → (it.nextBack).2 = it ∧ it.len = 0) := by
+  by_cases hlt : it.index < it.indexBack
+  · have h1 : ¬ (it.index ≥ it.indexBack) := by omega
+    have h2 : ¬ (it.indexBack ≤ it.index) := by omega
+    simp only [Iter2.next, Iter2.nextBack, Iter2.len, h1, if_false]
+    refine ⟨?_, ?_, ?_, ?_⟩ <;> first | omega | simp
+  · have h1 : it.index ≥ it.indexBack := by omega
+    have h2 : it.indexBack ≤ it.index := by omega
+    simp only [Iter2.next, Iter2.nextBack, Iter2.len, h1, if_true]
+    refine ⟨?_, ?_, ?_, ?_⟩ <;> first | omega | (simp; omega) | simp
 
 /-- a 2-D producer reports `hi − lo`, the number of points it delivers -/
 theorem len_fresh2 {α : Type} [Add α] [Sub α] [Mul α] [Div α] [NatCast α] [OfScientific α]
